@@ -132,9 +132,35 @@ func monitorC12(cfg CheckConfig, res *hx.Result, traces []*Trace) error {
 		im := NewImpl(t.U)
 		var tm, genesis tmSet
 		prevUpdated := map[uint64]bool{}
+		// the check-in fork, read off the genesis: active from block `ForkHeight` on (the block being executed is
+		// the one after the last ended block); chains with an entry in the override table are left to the model
+		in0 := t.H.Ops[0].Init
+		overridden := map[string]bool{"shutter-gnosis-1000": true, "shutter-chiado-102000": true, "shutter-api-gnosis-1001": true,
+			"shutter-service-chiado-1000": true, "shutter-api-gnosis-1002": true}[in0.Chain]
+		lastEnd := int64(0)
+		checked := map[common.Address]bool{}
 		for i, op := range t.H.Ops {
 			if op.Kind != "end" {
-				im.Do(op)
+				rr := im.Do(op)
+				if op.Kind == "deliver" && op.Tx.Garbage == nil && op.Tx.P.Kind == "ci" && !overridden && op.Tx.Signer < len(t.U.Addrs) {
+					who := t.U.Addrs[op.Tx.Signer]
+					forkActive := in0.ForkOn && lastEnd+1 >= in0.ForkHeight
+					fail := ""
+					switch {
+					case strings.HasPrefix(rr.Obs, "code=0"):
+						if checked[who] && !forkActive {
+							fail = fmt.Sprintf("a repeated check-in was accepted in block %d although the check-in fork (height %d, enabled=%v) is not active yet", lastEnd+1, in0.ForkHeight, in0.ForkOn)
+						}
+						checked[who] = true
+					case strings.HasPrefix(rr.Obs, "code=2") && checked[who] && forkActive:
+						fail = fmt.Sprintf("a repeated check-in was refused as 'already checked in' in block %d although the check-in fork is active from block %d on", lastEnd+1, in0.ForkHeight)
+					}
+					res.Count("c12:check-ins-judged-against-the-fork-height")
+					if fail != "" {
+						specViolation(cfg, res, "history", fail, t.U, t.H.Ops[:i+1])
+						return nil
+					}
+				}
 				if op.Kind == "init" {
 					tm = tmSet{}
 					for k, p := range im.App.Validators {
@@ -148,6 +174,7 @@ func monitorC12(cfg CheckConfig, res *hx.Result, traces []*Trace) error {
 				continue
 			}
 			r := im.App.EndBlock(abcitypes.RequestEndBlock{Height: op.Height})
+			lastEnd = op.Height
 			fail := ""
 			if !strictlySorted(r.ValidatorUpdates) {
 				fail = "validator updates not strictly sorted by key"
